@@ -43,12 +43,13 @@ RULE = ("operation sequences over producer ops {feed_data (sizes 0,1,2,3 and lim
         "readuntil (1- and 2-byte separators, max sizes), readexactly, readchunk, read_nowait, the four async iterators, "
         "set_read_chunk_size, resume-of-parked-coroutine}, limits 1..128 (chunk-count water marks 4..8); random "
         "sequences of length <= 60 from seven generator classes (mixed, chunked+readchunk, pure readchunk, chunked+mixed readers, "
-        "line-oriented, flow-control boundary, error/eof heavy) plus two systematic families: set_exception/feed_eof orderings x every read API x buffered content x started/resumed, and feed_eof arriving while paused for each reason (bytes, chunk count, between the marks) with the body unread and a next reader probed on the same protocol; thorough adds all sequences of length <= 5 over two 12-op alphabets (limit 1 and 2 / limit 1), quick samples 2500 of length <= 4; limit 0 is generated too (known wedge, own signature). "
+        "line-oriented, flow-control boundary, error/eof heavy) plus a deterministic sweep of every water mark +-1 (bytes and chunk counts, limits 1..80, 1024 and the default 65536) and two systematic families: set_exception/feed_eof orderings x every read API x buffered content x started/resumed, and feed_eof arriving while paused for each reason (bytes, chunk count, between the marks) with the body unread and a next reader probed on the same protocol; thorough adds all sequences of length <= 5 over two 12-op alphabets (limit 1 and 2 / limit 1), quick samples 2500 of length <= 4; limit 0 is generated too (known wedge, own signature). "
         "A case is non-trivial when at least one byte is delivered or a reader blocks; distinct by content. "
         "Server-connection class: the real web.Server protocol over an in-memory transport that honours pause_reading(): 0..35 pipelined GETs + a POST "
         "whose body (sizes around the water marks of read_bufsize 16/64/256) arrives in segments, handlers released in batches, the POST "
-        "handler reading nothing/part/all; 35% of the cases force both pause reasons (full request queue and body above high water) at once; a second family sends bodies several times the high-water mark in one read as many HTTP chunks and/or gzip/deflate-coded (the payload parser keeps input back while paused and refills the stream from inside resume_reading()), drained by the handler in steps below the low-water mark with the oracle evaluated after every read.")
+        "handler reading nothing/part/all; 35% of the cases force both pause reasons (full request queue and body above high water) at once; a second family sends bodies several times the high-water mark in one read as many HTTP chunks and/or gzip/deflate-coded (the payload parser keeps input back while paused and refills the stream from inside resume_reading()), drained by the handler in steps below the low-water mark with the oracle evaluated after every read. Client-connection class: the same through the real client_proto.ResponseHandler + HttpResponseParser (chunked / Content-Length / close-delimited, identity/gzip/deflate, application reading before or after the first delivery). Cancel-then-reuse family: every read API parked, cancelled (pending / woken by data / woken by a chunk end), stream used again.")
 TRUSTED_BASE = [
+    "the client-connection class (client_proto.ResponseHandler + HttpResponseParser) and the cancel-then-reuse family (task cancellation of a parked read) are judged by the direct oracle only; neither is part of the Lean model",
     "the server-connection class (web_protocol.RequestHandler: request-queue pause + body-stream pause on one transport) is not modelled in Lean: it is judged by the direct oracle only (transport reading => body stream <= high water; blocked handler => transport not paused; exact delivery), on the real web.Server protocol",
     "the entry check of StreamReader._wait() (raise a recorded exception before parking) is not a model flag: blocked_implies_no_exception proves it unreachable without re-entrant feeding once the wake-up re-check is present",
     "behaviour flag waitRechecksException (does _wait() re-check _exception after a regular wake-up) is probed behaviourally from the imported source on every run and written to Generated/C08.lean; the model is parametric in it and every theorem is proved for both values (the findings C08-K2..K9 are proved counterexamples for false, resumed_reads_raise / no_block_with_exception the positive statements for true)",
@@ -163,7 +164,7 @@ def _loop():
 def tok(op):
     k = op[0]
     if k == "F": return "F|" + hx(op[1])
-    if k in ("B", "E", "Z", "D", "w"): return k
+    if k in ("B", "E", "Z", "D", "w", "k"): return k
     if k == "X": return f"X|{op[1]}"
     if k == "s": return f"s|{op[1]}"
     if k == "r": return f"r|{'all' if op[1] is None else op[1]}|{op[2]}"
@@ -180,7 +181,7 @@ def untok(t):
     k = p[0]
     def n(x): return None if x == "all" else int(x)
     if k == "F": return ("F", b"" if p[1] == "-" else bytes.fromhex(p[1]))
-    if k in ("B", "E", "Z", "D", "w"): return (k,)
+    if k in ("B", "E", "Z", "D", "w", "k"): return (k,)
     if k in ("X", "s", "x"): return (k, int(p[1]))
     if k == "r": return ("r", n(p[1]), int(p[2]))
     if k in ("a", "c"): return (k, int(p[1]))
@@ -264,6 +265,21 @@ class Impl:
                 out = ("bad",)
             elif k == "n":
                 out = ("data", bytes(sr.read_nowait(-1 if op[1] is None else op[1])))
+            elif k == "k":
+                # the task running the parked read is cancelled (harness-only op: not part of the Lean model)
+                if self.coro is None:
+                    out = ("bad",)
+                else:
+                    c = self.coro
+                    self.coro = self.fut = self.kind = None
+                    try:
+                        c.throw(asyncio.CancelledError())
+                        out = ("err", "cancel-swallowed")
+                        c.close()
+                    except asyncio.CancelledError:
+                        out = ("err", "cancelled")
+                    except StopIteration:
+                        out = ("err", "cancel-swallowed")
             elif k == "w":
                 if self.coro is None or not self.fut.done():
                     out = ("bad",)
@@ -341,6 +357,7 @@ class Oracle:
         self.exc_before_eof = False  # set_exception() arrived while the stream had not ended: it is truncated
         self.marker_after_eof = False  # begin/end chunk after feed_eof: producer misuse, after-eof clauses do not apply
         self.resumed = False         # the outcome being judged comes from a resumed (previously parked) call
+        self.paused_at_low0 = False  # the current pause began / persisted while the low-water mark was 0
         self.blocked_with_exc = 0    # observation only (not a clause of the property): steps after which a reader
                                      # is parked on a pending future although an exception is recorded
         self.violations = []
@@ -406,12 +423,12 @@ class Oracle:
         if k in ("B", "E") and self.eof:
             self.marker_after_eof = True
         self.resumed = (k == "w")
-        consumer = k in CONSUMER_START or k in ("n", "w")
+        consumer = k in CONSUMER_START or k in ("n", "w", "k")
         if consumer and out[0] not in ("bad", "blocked"):
             pos0 = self.pos
             name = {"r": "read", "a": "readany", "u": "readuntil", "x": "readexactly", "c": "readchunk",
-                    "n": "read_nowait"}[op[0] if k != "w" else self._wk]
-            sk = op if k != "w" else self._wop
+                    "n": "read_nowait"}[op[0] if k not in ("w", "k") else self._wk]
+            sk = op if k not in ("w", "k") else self._wop
             if sk[0] != "c" and out[0] in ("data", "incomplete", "stop", "chunk"):
                 self.pure_readchunk = False
             if out[0] == "data":
@@ -447,6 +464,11 @@ class Oracle:
                 if crossed:
                     self.v("C08/readchunk/crossed-boundary", f"returned [{pos0},{self.pos}) across sender boundary {crossed[0]}")
             elif out[0] == "err":
+                if out[1] == "runtime" and self.connected and im.coro is None and k != "k":
+                    # RuntimeError is how the reader refuses a call: legitimate only for a second concurrent
+                    # reader or a lost connection — neither is the case here, so the bytes cannot be delivered
+                    self.v(f"C08/delivery/read-refused-without-concurrent-reader/{name}",
+                           f"step {i} ({tok(op)}): RuntimeError although no other read call is pending and the connection is up")
                 # a raising call may have taken bytes it never returned: re-synchronise
                 # (not when another call is parked: that one still holds the bytes it took)
                 if im.coro is None:
@@ -477,12 +499,37 @@ class Oracle:
                 pend = len([b for b in self.bounds if b > max(self.pos, sr._cursor)])
                 if pend > sr._high_water_chunks and not im.tr.paused:
                     self.v("C08/backpressure/not-paused-above-chunk-high-water", f"{pend} pending chunks > {sr._high_water_chunks}, transport not paused")
+        # the public predicates an application polls (`while not content.at_eof()`, is_eof(), total_bytes)
+        try:
+            at_eof, is_eof = sr.at_eof(), sr.is_eof()
+        except BaseException as e:  # noqa
+            at_eof = is_eof = None
+            self.v("C08/eof/predicate-raised", repr(e)[:60])
+        if is_eof is not None and bool(is_eof) != self.eof:
+            self.v("C08/eof/is_eof-disagrees-with-feed_eof", f"is_eof()={is_eof} after feed_eof={'yes' if self.eof else 'no'}")
+        if at_eof:
+            if not self.eof:
+                self.v("C08/eof/at_eof-before-feed_eof", f"at_eof() is true at offset {self.pos} without feed_eof")
+            elif max(self.pos, sr._cursor) != len(self.fed):
+                self.v("C08/eof/at_eof-before-all-data",
+                       f"at_eof() is true with {len(self.fed) - max(self.pos, sr._cursor)} fed bytes not yet taken")
+        elif self.eof and at_eof is not None and max(self.pos, sr._cursor) == len(self.fed) and im.coro is None:
+            self.v("C08/eof/at_eof-false-after-all-data", "everything fed was delivered and feed_eof was called, at_eof() is false")
+        if sr.total_bytes != len(self.fed):
+            self.v("C08/delivery/total_bytes-differs-from-fed", f"total_bytes {sr.total_bytes}, fed {len(self.fed)}")
         if im.coro is not None and not im.fut.done() and sr._exception is not None:
             self.blocked_with_exc += 1
+        if not im.tr.paused:
+            self.paused_at_low0 = False
+        elif sr.get_read_buffer_limits()[0] == 0:
+            self.paused_at_low0 = True
         # a reader blocked on an empty buffer is never left with the transport paused
         if im.coro is not None and not im.fut.done() and self.connected:
             if im.tr.paused:
-                sig = "C08/stuck-pause/limit-zero" if limit0 else "C08/stuck-pause/reader-blocked-transport-paused"
+                # the known wedge is: limit 0 AND this pause dates from a moment when the low-water mark was 0
+                # (nothing can be "below" it); a pause that arose after a read(n) raised the marks is judged normally
+                zero = limit0 and self.paused_at_low0
+                sig = "C08/stuck-pause/limit-zero" if zero else "C08/stuck-pause/reader-blocked-transport-paused"
                 self.v(sig, f"step {i} ({tok(op)}): reader parked in {tok(im.kind)}, transport paused, limits {sr.get_read_buffer_limits()}")
 
     def next_reader_probe(self):
@@ -748,9 +795,54 @@ def eof_paused_cases(rng, n):
         yield {"limit": limit, "ops": ops, "gen": "eof-paused"}
 
 
+def _det(t, k):
+    return "F|" + hx(bytes(65 + ((t + j) % 57) for j in range(k)))
+
+
+def threshold_cases():
+    """deterministic sweep of every water mark +-1 (runs first on every seed): bytes around high water on the way
+    up and around low water on the way down, pending chunk boundaries around the chunk high/low marks (drained by
+    readchunk and by read_nowait), both reasons at once, and the default-sized limit (65536: 4096/2048 chunks)"""
+    for L in (1, 2, 4, 16, 64, 80):
+        high = 2 * L
+        for fed in (high - 1, high, high + 1, high + 2):
+            if fed <= 0:
+                continue
+            for leave in (L - 1, L, L + 1):
+                if 0 <= leave <= fed:
+                    yield {"limit": L, "ops": [_det(0, fed), f"n|{fed - leave}", "a|0", "a|0"]}
+            yield {"limit": L, "ops": [_det(0, fed - 1), _det(fed - 1, 1), _det(fed, 1), f"r|{L}|0", "n|all", "a|0"]}
+        hc = max(4, L // 16); lc = hc // 2
+        for nch in (hc - 1, hc, hc + 1, hc + 2):
+            feed = []
+            for j in range(nch):
+                feed += [_det(j, 1), "E"]
+            for rem in (lc - 1, lc, lc + 1):
+                k = nch - rem
+                if k < 0:
+                    continue
+                yield {"limit": L, "ops": ["B"] + feed + ["c|0"] * k + ["a|0", "a|0"]}
+                yield {"limit": L, "ops": ["B"] + feed + ["n|1"] * k + ["a|0", "a|0"]}
+                yield {"limit": L, "ops": ["B"] + feed + ["r|1|0"] * k + ["c|0"] * (rem + 1) + ["c|0"]}
+            # bytes and chunk count both above their marks; bytes drained first, then the boundaries
+            yield {"limit": L, "ops": ["B"] + feed + [_det(nch, high + 1), f"n|{high + 1 + nch - lc}", "n|1", "n|1", "a|0", "a|0"]}
+            yield {"limit": L, "ops": ["B"] + feed + [_det(nch, high + 1), "Z", "a|0", "a|0"]}
+    # the default limit (bytes only) and a limit whose chunk marks come from `limit // 16` (64 / 32)
+    L = 65536
+    yield {"limit": L, "ops": [_det(0, 2 * L), _det(2 * L, 1), f"n|{L + 1}", "n|1", "a|0", "a|0"]}
+    L = 1024
+    feed = []
+    for j in range(67):
+        feed += [_det(j, 1), "E"]
+    yield {"limit": L, "ops": ["B"] + feed[:2 * 64] + ["a|0", "a|0"]}
+    yield {"limit": L, "ops": ["B"] + feed[:2 * 65] + ["c|0"] * 33 + ["c|0", "a|0", "a|0"]}
+    yield {"limit": L, "ops": ["B"] + feed + ["n|34", "n|1", "n|1", "a|0", "a|0"]}
+
+
 def cases_for(ctx):
     rng = ctx.rng
     out = [dict(c, gen="directed") for c in DIRECTED]
+    out += [dict(c, gen="thresholds") for c in threshold_cases()]
     out += list(exc_eof_cases())
     out += list(eof_paused_cases(rng, 300 if ctx.quick else 3000))
     nrand = 3500 if ctx.quick else 49000
@@ -834,12 +926,44 @@ def check(ctx):
     ctx.extra["cases_with_reader_blocked_while_exception_recorded"] = getattr(run_case, "blocked_with_exc", 0)
     ctx.extra["wait_rechecks_exception"] = _probe_wait_rechecks(_loop())
     check_server(ctx)
+    check_cancel(ctx)
     need = ["out:blocked", "out:chunk", "out:incomplete", "out:stop", "out:err:linetoolong", "out:err:runtime",
             "out:err:assertion", "ev:pause", "ev:resume", "op:w"]
     missing = [n for n in need if not ctx.hits.get(n)]
     if missing:
         from .common.guard import MachineryError
         raise MachineryError("generator blind spot: never hit " + ", ".join(missing))
+
+
+def cancel_cases():
+    """second use after a cancellation (harness-only op `k`, judged by the direct oracle, not sent to the model):
+    every read API parked on an empty / short buffer, cancelled while still pending / after it was woken by data /
+    by a chunk end, then the stream is used again — the next calls must work and deliver exactly what follows"""
+    for api in READ_APIS:
+        a = tok(api)
+        for pre in ([], ["F|41"], ["B", "F|41", "E", "c|0"]):
+            for wake in ([], ["F|4243"], ["B", "E"] if not pre else ["F|4243", "E"] if pre[0] == "B" else ["F|42"]):
+                tail = ["F|44450a46", a, "w", "n|all", "F|470a", a, "w", "Z", a, "w", "a|0"]
+                yield {"limit": 4, "ops": pre + [a] + wake + ["k"] + tail}
+                yield {"limit": 4, "ops": pre + [a] + wake + ["k", a, "n|all", "F|58590a", "w", "n|all", "a|0"]}
+                yield {"limit": 1, "ops": pre + [a] + wake + ["k", "F|444546", "n|all", a, "F|47", "w", "k", "F|48", "a|0", "w"]}
+
+
+def check_cancel(ctx):
+    n = 0
+    for c in cancel_cases():
+        case = {"limit": c["limit"], "ops": c["ops"]}
+        impl, viols = run_case(case)
+        steps = impl.split(" ")[1:]
+        ctx.case(("cancel", c["ops"]), nontrivial=True)
+        ctx.hit("gen:cancel")
+        for t, s_ in zip(c["ops"], steps):
+            if t == "k":
+                ctx.hit("cancel:" + s_.split(";", 1)[0])
+        for sig, detail in viols:
+            ctx.violation(sig, case, detail)
+        n += 1
+    ctx.extra["cancel_then_reuse_cases"] = n
 
 
 def check_server(ctx):
@@ -864,6 +988,22 @@ def check_server(ctx):
         if info.get("post_done"): ctx.hit("server:body-read-to-end")
         for sig, detail in viol:
             ctx.violation(sig, c, detail)
+    ccases = list(cs.CLIENT_DIRECTED) + [cs.gen_client(ctx.rng, i) for i in range(150 if ctx.quick else 2000)]
+    cover = crep = 0
+    for i, c in enumerate(ccases):
+        viol, info = cs.run_client(c)
+        cover += 1 if info.get("max_buffered_over_high") else 0
+        crep += 1 if info.get("pauses", 0) >= 3 else 0
+        ctx.case(("client", c), nontrivial=bool(info.get("read")),
+                 sample={"client": {k: c[k] for k in ("rb", "total", "framing", "coding", "reader")}, "info": info} if i % 97 == 0 else None)
+        ctx.hit("gen:client", "client:reader-" + c["reader"], "client:body-" + c["framing"] + "-" + (c["coding"] or "identity"))
+        for sig, detail in viol:
+            ctx.violation(sig, c, detail)
+    ctx.extra["client_connection_scenarios"] = {"cases": len(ccases), "with_body_above_high_water": cover,
+                                                "paused_3_times_or_more": crep}
+    if not cover or not crep:
+        from .common.guard import MachineryError
+        raise MachineryError("client-connection generator never had a body above high water / a re-pause while draining")
     ctx.extra["server_connection_scenarios"] = {"cases": len(cases), "with_both_pause_reasons_active": both,
                                                 "with_body_above_high_water": over,
                                                 "kept_back_input_paused_3_times_or_more": repaused}
@@ -873,9 +1013,9 @@ def check_server(ctx):
 
 
 def replay(ctx, case):
-    if case.get("kind") == "server":
+    if case.get("kind") in ("server", "client"):
         from .common import c08_server as cs
-        viol, _ = cs.run(case)
+        viol, _ = cs.run(case) if case["kind"] == "server" else cs.run_client(case)
         for sig, detail in viol:
             ctx.violation(sig, case, detail)
         return
